@@ -288,7 +288,20 @@ def run(ctx):
         fam = [b] + c.closures_of(b)
         split = [t for x in fam for _, t in x.calls() if t["call"]["name"] == "split" and "str" in t["call"]["def"]]
         sc = dt.resolve_const(b, split[0]["args"][1]) if split else None
-        dec = [a for x in fam for _, t in x.calls() for a in ([t["call"]] + [(y.get("c") or {}).get("fn") for y in t["args"]]) if a and a.get("def", "").startswith("percent_encoding::percent_decode_str")]
+        PDS = "percent_encoding::percent_decode_str"
+
+        def decodes(fnref, depth=0):
+            """the function reference is percent_decode_str, or a local function / closure whose body (helpers included) calls it"""
+            if not fnref:
+                return False
+            if fnref.get("def", "").startswith(PDS):
+                return True
+            cb_ = c.body(fnref.get("id")) if fnref.get("local") else None
+            if cb_ is None or depth > 2:
+                return False
+            return any(decodes(t2["call"], depth + 1) or any(decodes((y.get("c") or {}).get("fn"), depth + 1) for y in t2["args"])
+                       for x2 in [cb_] + c.closures_of(cb_) for _, t2 in x2.calls())
+        dec = [a for x in fam for _, t in x.calls() for a in ([t["call"]] + [(y.get("c") or {}).get("fn") for y in t["args"]]) if a and decodes(a)]
         order_ok = False
         if len(split) == 1:
             trp = Tracer(b, through_calls=True, through_agg=True)
@@ -298,13 +311,13 @@ def run(ctx):
             def maps_decoder(t):
                 """the map's function argument is percent_decode_str itself or a closure that calls it"""
                 for a in t["args"][1:]:
-                    if (a.get("c") or {}).get("fn", {}).get("def", "").startswith("percent_encoding::percent_decode_str"):
+                    if decodes((a.get("c") or {}).get("fn")):
                         return True
                     for s_ in trp.sources(a):
                         if s_[0] == "agg":
                             st_ = b.blocks[s_[1]]["s"][s_[2]]
                             clo = c.body(st_["r"].get("id")) if st_["r"].get("agg") == "closure" else None
-                            if clo is not None and any(t2["call"]["def"].startswith("percent_encoding::percent_decode_str") for _, t2 in clo.calls()):
+                            if clo is not None and any(decodes(t2["call"]) or any(decodes((y.get("c") or {}).get("fn")) for y in t2["args"]) for _, t2 in clo.calls()):
                                 return True
                 return False
             maps = [t for _, t in b.calls() if t["call"]["name"] == "map" and maps_decoder(t)]
@@ -355,6 +368,28 @@ def run(ctx):
                         s_ = s_[1]
                     if s_[0] == "call" and gb.blocks[s_[1]]["t"]["call"]["name"] == "next" and "Parameter" in str(chain):
                         keyed += 1
+        def from_parameter(x, op_):
+            for s_ in Tracer(x, through_agg=True, transparent=dt.value_tracer(x).transparent).sources(op_):
+                chain = []
+                while s_[0] == "field":
+                    chain.append(s_[2])
+                    s_ = s_[1]
+                if s_[0] == "call" and x.blocks[s_[1]]["t"]["call"]["name"] == "next" and "Parameter" in str(chain):
+                    return True
+            return False
+        if not keyed:
+            # the lookup may be routed through a local closure (`let lookup = |name| &table[name]`): the keyed access is in the
+            # closure, on its own parameter, and the closure is applied to the Parameter(name) payload
+            cgen = F.crate(cn)
+            for clo in cgen.closures_of(gb):
+                for bb, t in clo.calls():
+                    if t["call"]["name"] in ("index", "get", "get_key_value", "remove") and len(t["args"]) == 2:
+                        kroots = Tracer(clo, through_calls=True).root_locals(t["args"][1])
+                        if kroots and all(2 <= r_ <= clo.argc for r_ in kroots):
+                            for bb2, t2 in gb.calls():
+                                res_ = t2["call"].get("resolved") or {}
+                                if res_.get("id") == clo.id and len(t2["args"]) == 2 and from_parameter(gb, t2["args"][1]):
+                                    keyed += 1
         ctx.check(keyed >= 1, "R7.7", gb.loc(), f"{fn['name']}|path-parameter-by-name",
                   f"{fn['name']}: no lookup of the argument by the path template's parameter name (a map indexed with the `Parameter(name)` payload of the component being written): path arguments bound by position end up in the wrong segments when declared in another order",
                   instance=f"{fn['name']}: Parameter(name) -> args_by_name[name]")
